@@ -3,3 +3,9 @@ CONSTANTS
   Window <- WindowS
   Quanta <- QuantaS
 INVARIANT LazyAccepts
+INVARIANT LazyEnds
+INVARIANT LazyIsShort
+INVARIANT LazyPatternsRestart
+INVARIANT LazyConserves
+INVARIANT LazyInputReaches
+INVARIANT LazyGeneratorDies
